@@ -70,8 +70,8 @@ TFree ==
   /\ Stay /\ UNCHANGED be
   /\ \E k \in FreeKeys : FreeSilent(k, DepsFor(k, ReqDeps(k)), ChgFor(k))
 
-TExec ==
-  /\ Is("Exec") /\ Adv /\ UNCHANGED be
+TExec(rc) ==
+  /\ Is("Exec") /\ Adv /\ UNCHANGED be /\ ev.rc = rc
   /\ \E k \in FreeKeys :
         /\ CmdOf(k) = ev.c
         /\ (ev.rc = 1) = Fails(ev.c)
@@ -118,8 +118,9 @@ TraceInit ==
 TraceNext ==
   IF b.on
   THEN LET sk == SilentKeys IN
-       IF sk # {} THEN TSilent(sk)
-       ELSE TFree \/ TExec \/ TRegenEnd \/ TBuildEnd
+       \/ sk # {} /\ TSilent(sk)
+       \/ TExec(1)          \* a failure sets the cancel flag when the command ENDS: pending silent steps may come before or after
+       \/ sk = {} /\ (TFree \/ TExec(0) \/ TRegenEnd \/ TBuildEnd)
   ELSE \/ TReset \/ TEdit \/ TTouch \/ TDelete \/ TTamper \/ TManifest \/ TMark \/ TBuild
        \/ TCleanCheck \/ TEnd
 
